@@ -50,7 +50,7 @@ func (v *FnVC) ghostAtCall(site, when string, pnames []string, args []Term) {
 	extra := map[string]Term{}
 	for i, n := range pnames {
 		if i < len(args) {
-			extra["arg."+n] = args[i]
+			extra["arg_"+n] = args[i]
 		}
 	}
 	if when == "before" {
